@@ -35,13 +35,17 @@ def bearing(ra1, dec1, ra2, dec2):
 
 
 def destination(ra, dec, r, theta):
-    """point at distance r (deg) along initial bearing theta (deg E of N) from (ra, dec)"""
+    """point at distance r (deg) along initial bearing theta (deg E of N) from (ra, dec).  Vector form: start p, local north n
+    and east e (defined through the given ra also AT a pole, where they are the limit along that meridian), result
+    cos(r) p + sin(r) (cos(theta) n + sin(theta) e).  No cancellation anywhere on the sphere."""
     l1, b1, rr, t = [np.asarray(v, dtype=LD) * D2R for v in (ra, dec, r, theta)]
-    sb = np.sin(b1) * np.cos(rr) + np.cos(b1) * np.sin(rr) * np.cos(t)
-    b2 = np.arcsin(np.clip(sb, -1, 1))
-    y = np.sin(t) * np.sin(rr) * np.cos(b1)
-    x = np.cos(rr) - np.sin(b1) * sb
-    l2 = l1 + np.arctan2(y, x)
+    cl, sl, cb, sb = np.cos(l1), np.sin(l1), np.cos(b1), np.sin(b1)
+    p = (cb * cl, cb * sl, sb)
+    n = (-sb * cl, -sb * sl, cb)
+    e = (-sl, cl, 0 * cl)
+    q = [np.cos(rr) * p[i] + np.sin(rr) * (np.cos(t) * n[i] + np.sin(t) * e[i]) for i in range(3)]
+    l2 = np.arctan2(q[1], q[0])
+    b2 = np.arctan2(q[2], np.hypot(q[0], q[1]))
     return (l2 / D2R) % LD(360), b2 / D2R
 
 
